@@ -4,7 +4,7 @@
 From Coq Require Import List Arith ZArith NArith Lia.
 From CPL Require Import Model.Base Model.Numbering Model.Rules Model.Engine Model.Evolve1D Model.Reversible.
 From CPL Require Import Proofs.NumberingProofs Proofs.ReversibleProofs.
-From CPL Require Import gen.GenFuns GenProps.GenFunsEquivC13 GenProps.GenFunsExt.
+From CPL Require Import gen.GenFuns_C13 GenProps.GenFunsEquivC13 GenProps.GenFunsExt.
 Import ListNotations.
 
 Theorem C13_source_translation_agrees :
